@@ -176,15 +176,39 @@ def r2_identity(P, rep, ctx):
     crfi = P.func("ih5.record.IH5UserBlock.create")
     cr = F(ctx, crfi)
     pv = crfi.params[1]
-    okc = False
-    for x in ast.walk(crfi.node):
-        if isinstance(x, ast.Call) and norm(x.func) in ("cls", "IH5UserBlock"):
-            kws = {k.arg: k.value for k in x.keywords}
+    # path-sensitive, in statement or conditional-expression form: the fields of the returned block in both cases
+    KEY = f"{pv} is None"
 
-            def alt(e, none_val, some_val):
-                return e is not None and (MM.equivalent_ifexp(e, pv, none_val, some_val))
+    class Pick(ast.NodeTransformer):
+        def __init__(self, truth):
+            self.truth = truth
 
-            okc = alt(kws.get("prev_patch"), "None", f"{pv}.patch_uuid") and alt(kws.get("patch_index"), "0", f"{pv}.patch_index + 1") and alt(kws.get("record_uuid"), "uuid1()", f"{pv}.record_uuid")
+        def visit_IfExp(self, node):
+            a_, neg = MM.polarity(node.test)
+            if norm(a_) == KEY:
+                return self.visit(node.body if (self.truth != neg) else node.orelse)
+            return self.generic_visit(node)
+
+    try:
+        cpaths = cr.value_paths()
+    except ValueError as e:
+        raise AnalysisError(f"C10.R2: IH5UserBlock.create: {e}")
+    okc = bool(cpaths)
+    seen_cases = set()
+    for lits, v, n_ in cpaths:
+        fixed = [tv for k, tv in lits if k == KEY]
+        for truth in ([fixed[0]] if fixed else [True, False]):
+            import copy as _copy
+
+            call = Pick(truth).visit(_copy.deepcopy(v))
+            if not (isinstance(call, ast.Call) and norm(call.func) in ("cls", "IH5UserBlock")):
+                okc = False
+                continue
+            kws = {k.arg: norm(k.value) for k in call.keywords}
+            want = {"prev_patch": "None", "patch_index": "0", "record_uuid": "uuid1()"} if truth else {"prev_patch": f"{pv}.patch_uuid", "patch_index": f"{pv}.patch_index + 1", "record_uuid": f"{pv}.record_uuid"}
+            okc = okc and all(kws.get(k) == w for k, w in want.items())
+            seen_cases.add(truth)
+    okc = okc and seen_cases == {True, False}
     rep.check(okc, "C10.R2", crfi.qual,
               "a patch on the stub links to the stub's (= real newest) patch uuid with the next index", crfi.loc(), construct="IH5UserBlock.create", message="IH5UserBlock.create does not link a new patch to prev.patch_uuid / index+1 / same record uuid")
 
